@@ -439,6 +439,9 @@ def match_known(prop, sig, known):
     return None
 
 
+_RESULTS = []   # every Result created in this process (see main: violations survive a later INCONCLUSIVE part)
+
+
 class Result:
     def __init__(self, prop, tier, seed, level="model_checking"):
         self.prop, self.tier, self.seed, self.level = prop, tier, seed, level
@@ -448,6 +451,7 @@ class Result:
         self.violations = []   # (sig, replay)
         self.known_hits = {}
         self.notes = []
+        _RESULTS.append(self)
 
     def sample(self, s):
         if len(self.cov["samples"]) < 6:
@@ -540,6 +544,18 @@ def main(prop_runner):
     except Inconclusive as e:
         log("INCONCLUSIVE property=%s %s" % (a.prop, e))
         rc = 2
+        # a later part of a check that cannot decide does not erase violations an earlier part reproduced
+        withv = [r for r in _RESULTS if r.violations]
+        if withv:
+            first = withv[0]
+            seen = {p for _, p in first.violations}
+            for r in withv[1:]:
+                for sg, p in r.violations:
+                    if p not in seen:
+                        first.violations.append((sg, p))
+                        seen.add(p)
+            first.notes.append("a later part of the check was inconclusive: %s" % str(e)[:300])
+            rc = first.finish()
     except subprocess.TimeoutExpired as e:
         log("INCONCLUSIVE property=%s timeout %s" % (a.prop, e))
         rc = 2
